@@ -457,3 +457,9 @@ pub fn play_game_against_self(
         show_board(simple_print, &board);
     }
 }
+
+// verification hook: the magnitude the search reserves for mate scores
+#[cfg(walleye_verif)]
+pub fn verif_mate_score() -> i32 {
+    MATE_SCORE
+}
